@@ -399,6 +399,15 @@ def gen_mixed(seed, weights=None, nmods=None, nsteps=None, opts=None, mode="loop
 HOSTILE_W = dict(MIXED_W, retain=10, dereg=4, lifecycle=14, unsub=8, sub=10, tell=12, publish=12, broadcast=6, pill=4, fd=10)
 
 
+def hostile_seed_for(k, base):
+    """a seed whose template number cycles through 0 (burst), 1 (self-deregistration) and 2 (re-subscription)"""
+    want = k % 3
+    sd = base
+    while random.Random(sd * 31 + 7).randrange(8) != want:
+        sd += 1
+    return sd
+
+
 def gen_hostile(seed, mode="loop"):
     """C04 'hostile_lifetime': targeted templates on top of a retain/deregister-heavy random mix"""
     r = random.Random(seed * 31 + 7)
@@ -434,6 +443,9 @@ def gen_hostile(seed, mode="loop"):
             ops.append(("stop", B))
         if variant == 3:
             ops.append(("dereg", B))
+        # a broadcast and a publish while one mailbox is full: everybody else has room and must get them
+        ops.append(("publish", C, -1, sc.pay(), 0))
+        ops.append(("publish", A, -1, sc.pay(True), PS_AUTOFREE))
         steps.append(ops)
         steps += [[] for _ in range(3)]
         if variant == 1:
@@ -446,14 +458,16 @@ def gen_hostile(seed, mode="loop"):
         sc.cb(B, "evt", r.randrange(0, 2), [("evt_retain", 0), act, ("evt_retain", 1)])
         steps += [[send(A, B)], [], [("start", B)], [send(C, B), ("publish", C, tp, sc.pay(), 0)], []]
     elif t == 2:    # unsubscribe / resubscribe with other flags while a matching message is in flight
-        fl = r.choice([0, SRC_DUP, SRC_DUP | SRC_AUTOFREE])
+        fl = r.choice([0, SRC_DUP, SRC_DUP | SRC_AUTOFREE, SRC_ONESHOT, SRC_ONESHOT | SRC_DUP, SRC_ONESHOT])
         sc.main += [("sub", B, tp, fl, sc.ud())]
         ops = [("publish", A, tp, sc.pay(True), PS_AUTOFREE), ("publish", C, tp, sc.pay(), 0)]
         ops.append(r.choice([("unsub", B, tp), ("sub", B, tp, fl ^ SRC_LOW, sc.ud()), ("sub", B, tp, fl, sc.ud()), ("sub", B, tp, SRC_DUP | SRC_HIGH, sc.ud())]))
         steps.append(ops)
         steps.append([("publish", A, tp, sc.pay(), 0)])
+        steps.append([])
+        steps.append([("publish", C, tp, sc.pay(), 0), ("publish", A, tp, sc.pay(True), PS_AUTOFREE)])
         sc.cb(B, "evt", 0, [("evt_retain", 0)])
-        steps += [[], [("unsub", B, tp)], []]
+        steps += [[], [], [("unsub", B, tp)], []]
     elif t == 3:    # X stopped / deregistered / paused by Y while X has an event later (or earlier) in the same poll batch
         sc.main += [("fd_open", 1, 0, 0), ("fd_open", 2, 0, 0), ("fd_open", 3, 1, 0)]
         sc.main += [("fd_reg", A, 1, r.choice([0, SRC_ONESHOT]), sc.ud()), ("fd_reg", B, 2, r.choice([0, SRC_FD_AUTOCLOSE, SRC_DUP]), sc.ud()),
@@ -474,6 +488,50 @@ def gen_hostile(seed, mode="loop"):
         steps.append([])
         steps.append([r.choice([("stop", A), ("dereg", A), ("pill", B, A), ("pause", A)])])
         steps += [[], [("evt_check", 0), ("evt_check", 1)], []]
+    driven_finish(sc, steps, rng=r)
+    finalize_main(sc)
+    return sc
+
+
+def gen_last_ref(seed, mode="loop"):
+    """C04: a module deregisters itself from inside its start / stop / evaluation callback while the reference handed to
+    m_mod_deregister() is the very last one (the harness dropped its observation reference right after registering)"""
+    r = random.Random(seed * 59 + 37)
+    sc = Sc(mode, "last reference dropped inside a callback seed=%d" % seed)
+    driven_skeleton(sc)
+    steps = [[] for _ in range(8)]
+    for i, kind in enumerate(r.sample(["start", "stop", "eval", "evt", "start", "eval"], r.randrange(2, 5)), start=1):
+        sc.mod(i, "lr%d" % i, r.choice([0, MOD_NAME_DUP, MOD_UD_AUTOFREE]), 7)
+        for k in ("eval", "start", "stop"):
+            sc.cb(i, k, "*", [], ret=1)
+        sc.cb(i, "evt", "*", [])
+        sc.cb(i, kind, 0, [("dereg", -1)], ret=r.choice([0, 1]))
+        sc.main += [("reg", i), ("obs_drop_keep_handle", i)]
+        if kind == "start":
+            steps[r.randrange(0, 3)].append(("start", i))
+        elif kind == "stop":
+            sc.main.append(("start", i))
+            steps[r.randrange(0, 3)].append((r.choice(["stop", "dereg"]), i))
+        elif kind == "evt":
+            sc.main.append(("start", i))
+            steps[r.randrange(0, 3)].append(("tell", DRV, i, sc.pay(), 0))
+        # eval: the loop's first pass calls it
+    driven_finish(sc, steps, rng=r)
+    finalize_main(sc)
+    return sc
+
+
+def gen_tick_in_flush(seed, mode="loop"):
+    """C20: m_ctx_set_tick() called by a handler that the final flush of a loop run invokes (loop-stopped notification) while a
+    tick is active"""
+    r = random.Random(seed * 61 + 41)
+    sc = Sc(mode, "tick reconfigured inside the final flush seed=%d" % seed)
+    driven_skeleton(sc)
+    sc.mod(1, "ticker", 0, 0)
+    t_stop = sc.topic("LIBMODULE_CTX_STOPPED")
+    sc.main += [("reg", 1), ("start", 1), ("sub", 1, t_stop, 0, sc.ud()), ("ctx_tick", r.choice([1000000, 2000000]))]
+    sc.cb(1, "evt", "*", [("ctx_tick", r.choice([0, 3000000, 1000000]))])
+    steps = [[] for _ in range(r.randrange(2, 6))]
     driven_finish(sc, steps, rng=r)
     finalize_main(sc)
     return sc
@@ -506,18 +564,24 @@ def gen_restart_in_stop(seed, mode="loop"):
     return sc
 
 
-def main_dispatch_finish(sc, steps, rng=None, quit_code=None, teardown=True):
+def main_dispatch_finish(sc, steps, rng=None, quit_code=None, teardown=True, kick=True):
     """dispatch-only style: steps run from the main script *between* m_ctx_dispatch() calls (context looping, no
     callback on the stack); the driver's kicker makes every dispatch return >= 1, i.e. end with an evaluation pass"""
     code = quit_code if quit_code is not None else (rng.randrange(0, 200) if rng else 0)
     sc.cb(DRV, "evt", "*", [])
+    if not kick:
+        # no always-ready descriptor: a poll batch then holds only what the scenario itself produced (eg. nothing but a poison pill)
+        sc.main = [op for op in sc.main if not (op[0] == "fd_write" and op[1] == KICK)]
+        sc.meta["style"] = "main_nokick"
     sc.main.append(("ctx_dispatch", 1))
     for ops in steps:
         sc.main += ops
         sc.main.append(("ctx_dispatch", 1))
+        if not kick:
+            sc.main.append(("ctx_dispatch", 1))
     sc.main += [("ctx_quit", code), ("ctx_dispatch_until", 50, 0)]
     sc.meta["quit_code"] = code
-    sc.meta["style"] = "main"
+    sc.meta.setdefault("style", "main")
     if teardown:
         order = sorted(sc.mods)
         if rng:
@@ -544,8 +608,8 @@ def gen_lifecycle(seed, style=None):
     """C01: many modules, every (state, call) pair from outside and from inside every callback kind, all combinations of
     eval/start results, late registrations; names chosen at random so that table order varies"""
     r = random.Random(seed * 7 + 3)
-    style = style or r.choice(["handler", "main", "main"])
-    sc = Sc("dispatch" if style == "main" else r.choice(["loop", "dispatch"]), "lifecycle seed=%d style=%s" % (seed, style))
+    style = style or r.choice(["handler", "main", "main", "main_nokick"])
+    sc = Sc("dispatch" if style != "handler" else r.choice(["loop", "dispatch"]), "lifecycle seed=%d style=%s" % (seed, style))
     driven_skeleton(sc)
     nm = r.randrange(2, 7)
     alphabet = "abcdefghijklmnopqrstuvwxyz"
@@ -574,8 +638,12 @@ def gen_lifecycle(seed, style=None):
         hooks = sc.mods[i][2]
         if hooks & 1:
             pf = r.choice([0.0, 0.3, 0.6, 1.0])        # probability that an evaluation says "no"
+            late_yes = r.randrange(2, 7) if (style == "main_nokick" and r.random() < 0.6) else None
             for n in range(8):
-                sc.cb(i, "eval", n, sum((p.op("cb", i) for _ in range(r.choice([0, 0, 0, 1]))), []), ret=0 if r.random() < pf else 1)
+                ret_ = 0 if r.random() < pf else 1
+                if late_yes is not None:
+                    ret_ = 0 if n < late_yes else 1        # says no for a while, then yes: needs a later pass to be started
+                sc.cb(i, "eval", n, sum((p.op("cb", i) for _ in range(r.choice([0, 0, 0, 1]))), []), ret=ret_)
             sc.cb(i, "eval", "*", [], ret=1 if r.random() < 0.8 else 0)
         if hooks & 2:
             for n in range(4):
@@ -598,6 +666,12 @@ def gen_lifecycle(seed, style=None):
         steps.append(ops)
     if style == "main":
         main_dispatch_finish(sc, steps, rng=r)
+    elif style == "main_nokick":
+        # make pill-only batches likely: every few steps a lone poison pill for a module that may be running
+        for k in range(len(steps)):
+            if r.random() < 0.5:
+                steps[k] = [("pill", r.randrange(1, nm + 1), r.randrange(1, nm + 1))] if r.random() < 0.7 else steps[k][:1]
+        main_dispatch_finish(sc, steps, rng=r, kick=False)
     else:
         driven_finish(sc, steps, rng=r)
     finalize_main(sc)
@@ -801,8 +875,19 @@ def gen_sources(seed, mode="loop"):
     steps = []
     nsteps = r.randrange(3, 16)
     tid = 0
+    # the peer of one registered pipe goes away (EPOLLHUP): what was written before must still be delivered
+    hup = {}
+    hup_u = r.choice(list(conserve)) if (conserve and shape == "few" and r.random() < 0.4) else None
+    hup_step = r.randrange(0, max(1, nsteps - 1)) if hup_u else None
     for k in range(nsteps):
         ops = []
+        if hup_u is not None and k == hup_step:
+            n_ = r.randrange(1, 3)
+            ops += [("fd_write", hup_u)] * n_ + [("fd_hup", hup_u)]
+            pend[hup_u] = 99                    # no more writes
+            hup[hup_u] = conserve.pop(hup_u)
+        if hup_u is not None and k == hup_step + 4:
+            ops.append(("fd_dereg", hup[hup_u], hup_u))
         if shape == "wide" and k == 1:
             for uu in conserve:
                 ops.append(("fd_write", uu))
@@ -833,6 +918,9 @@ def gen_sources(seed, mode="loop"):
             else:
                 ops.append(("sleep", r.choice([200, 1000, 2500])))
         steps.append(ops)
+    if hup_u is not None and hup_step + 4 >= nsteps:
+        steps += [[] for _ in range(hup_step + 5 - nsteps)] + [[("fd_dereg", hup[hup_u], hup_u)]]
+    sc.meta["hup"] = hup if shape != "quit_early" else {}
     if shape != "quit_early":
         steps += [[("sleep", 300)] if i % 2 else [] for i in range(8)]
         sc.meta["conserve"] = conserve
@@ -871,6 +959,14 @@ def gen_registry(seed, mode="loop"):
     for u in range(1, nfd + 1):
         sc.main.append(("fd_open", u, r.choice([0, 1]), 0))
         fd_owner[u] = r.randrange(1, nm + 1)
+    # descriptors the poll layer refuses (regular files): a registration on a RUNNING module must be rejected without trace
+    unpoll = []
+    for u in range(nfd + 1, nfd + 1 + r.randrange(0, 3)):
+        sc.main.append(("fd_open", u, 2, 0))
+        fd_owner[u] = r.randrange(1, nm + 1)
+        unpoll.append(u)
+    sc.meta["unpollable_fds"] = set(unpoll)
+    nfd += len(unpoll)
     sc.meta["max_ufd"] = nfd + 2
     # one descriptor that two modules try to register (never auto-close): the poll layer refuses the second one
     # when both are polled; either way the counts must stay consistent
@@ -898,12 +994,16 @@ def gen_registry(seed, mode="loop"):
                 return []
             if reg:
                 fl = r.choice([0, 0, SRC_HIGH, SRC_AUTOFREE, SRC_ONESHOT, SRC_DUP])
+                if u in unpoll:
+                    fl = r.choice([0, SRC_DUP, SRC_DUP, SRC_AUTOFREE, SRC_DUP | SRC_AUTOFREE])
                 if u == shared:
                     fl = 0
                 return [("fd_reg", m, u, fl, sc.ud())]
             return [("fd_dereg", m, u)]
         if k == "tmr":
             ns = r.choice(tmr_pool)
+            if reg and r.random() < 0.08:
+                return [("tmr_reg", m, 77000000000 + r.randrange(3), r.choice([0, SRC_AUTOFREE]), sc.ud(), 9)]      # invalid clock id: cannot be polled
             return [("tmr_reg", m, ns, r.choice([0, SRC_LOW, SRC_HIGH, SRC_AUTOFREE]), sc.ud(), r.choice([0, 0, 1]))] if reg else [("tmr_dereg", m, ns)]
         if k == "sgn":
             sg = r.choice(sgn_pool)
@@ -918,7 +1018,7 @@ def gen_registry(seed, mode="loop"):
             pi = r.randrange(3)
             return [("path_reg", m, pi, r.choice([0, SRC_DUP]), sc.ud(), 256)] if reg else [("path_dereg", m, pi)]
         if k == "pid":
-            pv = r.choice([0, 1])
+            pv = r.choice([0, 1, 4194000])          # self, init, (almost certainly) no such process
             return [("pid_reg", m, 0, 0, sc.ud(), pv)] if reg else [("pid_dereg", m, 0, 0, 0, pv)]
         if k == "task":
             tid = r.randrange(1, 5)
@@ -1007,7 +1107,10 @@ def gen_batching(seed, mode="loop"):
             steps.append([])
 
     if use_timeout:
-        sc.main += [("bsize", T, r.choice([0, 0, 64])), ("btimeout", T, r.choice([3000000, 5000000]))]
+        t0_ = r.choice([3000000, 5000000])
+        sc.main += [("bsize", T, r.choice([0, 0, 64])), ("btimeout", T, t0_)]
+        if r.random() < 0.4:
+            sc.main.append(("btimeout", T, t0_))         # applying the same timeout again must keep it in force
     elif r.random() < 0.7:
         sc.main.append(("bsize", T, r.choice([0, 1, 2, 3, 7, 2, 3])))
     for phase in range(r.randrange(3, 10) if not use_timeout else r.randrange(2, 5)):
